@@ -43,6 +43,10 @@ class FramedIpAddressAVP(DiameterAVP, AddressType):
         elif isinstance(data, bytes):
             self._data = data
 
+        else:
+            raise DataTypeError("AddressType MUST have data argument "\
+                                "of 'str' or 'bytes'")
+
 
 class CalledStationIdAVP(DiameterAVP, UTF8StringType):
     """Implementation of Called-Station-Id AVP in Section 4.2.5 of
